@@ -67,7 +67,7 @@ def c10(args, rng):
     vs = []
     for k in range(-ulps, ulps + 1):
         vs.append((ulp_step(1.0, k), 'near-one'))
-    for thr in (1.71, -1.72):
+    for thr in (-1.71, 1.72):                # the series is used for -1.71 < x < 1.72
         v0 = float(mp.e ** (-mp.mpf(thr)))   # x = -ln v crosses the switch point here
         for k in range(-ulps, ulps + 1, 1 if args.tier != 'quick' else 3):
             vs.append((ulp_step(v0, k), 'near-switch'))
